@@ -89,8 +89,9 @@ def warmup():
     class IO:
         def progress(self, o):
             pass
+    found = []
     for i in range(4):
-        run_job({'i': i, 'seed': 31337}, IO())
+        found.extend(run_job({'i': i, 'seed': 31337}, IO()).get('violations') or [])  # what a warm-up run finds counts
     for c in STRUCTSEQS:
         for n in PAIRS:
             for f in (ENG[n], TWIN[n]):
@@ -100,6 +101,7 @@ def warmup():
                     pass
     if V is not None:
         V.set_type_cache_cap(4096)
+    return found
 
 
 class StrSub(str):
@@ -232,8 +234,8 @@ def run_job(job, io):
         V.set_type_cache_cap(cap[0])
         max_cap[0] = max(cap[0], len((V.snapshots().get('namedtuple') or {})))
     reg = Registry()
-    reg.register(U.CA, 'ns', style=tape.draw(4, 'style'))
-    reg.register(U.CB, GLOBAL, style=tape.draw(4, 'style-g'))
+    custom_funcs = {U.CA: reg.register(U.CA, 'ns', style=tape.draw(4, 'style')),
+                    U.CB: reg.register(U.CB, GLOBAL, style=tape.draw(4, 'style-g'))}
     import warnings as _w
     with _w.catch_warnings():
         _w.simplefilter('ignore')
@@ -419,7 +421,7 @@ def run_job(job, io):
         elif kind == 'sortcmp':
             sortcmp(tape, viol, keys, probes, oplog)
         elif kind == 'onelevel':
-            onelevel(tape, viol, keys, probes, oplog)
+            onelevel(tape, viol, keys, probes, oplog, custom_funcs)
         for ent in list(live):
             check_class(ent, site)
         if violations:
@@ -638,10 +640,43 @@ class OneNT(collections.namedtuple('OneNTBase', ['v'])):
         return super().__new__(cls, (v,))
 
 
-def onelevel(tape, viol, keys, probes, oplog):
+def onelevel(tape, viol, keys, probes, oplog, custom_funcs):
     ctx = gen.swarm_ctx(tape, custom_classes=(U.CA, U.CB))
     tree = gen.gen_tree(tape, 2 + tape.draw(12, 'budget'), ctx)
-    special = tape.draw(10, 'ol-special')
+    special = tape.draw(12, 'ol-special')
+    if special in (10, 11):
+        # a custom node whose flatten function returns an unusual third element (entries): empty, of the wrong length, not
+        # iterable, falsy-but-well-formed, or with no truth value.  Engine and twin must agree on accept / reject, and on
+        # the result when both accept.
+        cls = (U.CA, U.CB)[special - 10]
+        f = custom_funcs[cls]
+        how = tape.choice(('entries_empty', 'entries_empty_list', 'entries_short', 'entries_len', 'entries_noniter', 'entries_nobool', 'entries_empty_ok',
+                           'len1', 'len4', 'not_tuple', 'list3'), 'ol-malform')
+        node = cls([ctx.leaf() for _ in range(tape.draw(3, 'ol-mal-n'))], aux=0)
+        ns_m = 'ns' if cls is U.CA else ('', 'ns', 'other')[tape.draw(3, 'ol-mal-ns')]
+        f.malform = how
+        try:
+            try:
+                eng = ('ok', optree.tree_flatten(node, namespace=ns_m, is_leaf=lambda x: x is not node))
+            except Exception as e:  # noqa: BLE001
+                eng = ('exc', e)
+            try:
+                twin = ('ok', optree.tree_flatten_one_level(node, namespace=ns_m))
+            except Exception as e:  # noqa: BLE001
+                twin = ('exc', e)
+        finally:
+            f.malform = None
+        probes['one-level:custom-entries:' + how] += 1
+        keys.add('onelevel-entries|%s|%s|%s' % (how, eng[0], twin[0]))
+        oplog.append('one-level custom entries %s: engine %s, twin %s' % (how, eng[0], twin[0]))
+        if eng[0] != twin[0]:
+            viol('twin-disagree', 'one-level:custom-entries', 'a custom flatten function returning %s: the engine %s, tree_flatten_one_level %s' % (
+                how, 'accepts it' if eng[0] == 'ok' else 'raises %s' % type(eng[1]).__name__, 'accepts it' if twin[0] == 'ok' else 'raises %s' % type(twin[1]).__name__))
+        elif eng[0] == 'ok':
+            e_children, e_spec = eng[1]
+            if len(e_children) != len(twin[1][0]) or not all(a is b for a, b in zip(e_children, twin[1][0])) or list(twin[1][2]) != e_spec.entries():
+                viol('twin-disagree', 'one-level:custom-entries', 'a custom flatten function returning %s: children / entries differ (%r vs %r)' % (how, list(twin[1][2]), e_spec.entries()))
+        return
     if special in (8, 9):
         # an OrderedDict whose order was changed AFTER construction: its order lives in its own linked list, not in the
         # underlying dict (move_to_end does not touch the latter)
